@@ -101,14 +101,23 @@ func (c *ConnectedGrouping) GroupClones(pairs []*ClonePair) []*CloneGroup {
 		comp[r] = append(comp[r], f)
 	}
 
-	// Convert to groups, exclude singletons
-	groups := make([]*CloneGroup, 0, len(comp))
-	groupID := 0
+	// Collect components (excluding singletons) in a deterministic order:
+	// members sorted by location, components ordered by their first member.
+	// Map iteration order is random and must not decide the group IDs.
+	components := make([][]*CodeFragment, 0, len(comp))
 	for _, members := range comp {
 		if len(members) < 2 {
 			continue
 		}
 		sort.Slice(members, func(i, j int) bool { return fragmentLess(members[i], members[j]) })
+		components = append(components, members)
+	}
+	sort.Slice(components, func(i, j int) bool { return fragmentLess(components[i][0], components[j][0]) })
+
+	// Convert to groups
+	groups := make([]*CloneGroup, 0, len(components))
+	groupID := 0
+	for _, members := range components {
 		g := NewCloneGroup(groupID)
 		groupID++
 		for _, f := range members {
@@ -152,7 +161,9 @@ func majorityCloneType(typeMap map[string]CloneType, members []*CodeFragment) Cl
 	var best CloneType
 	maxC := -1
 	for t, c := range counts {
-		if c > maxC {
+		// Ties are broken by the smaller clone type so that the result does
+		// not depend on map iteration order
+		if c > maxC || (c == maxC && t < best) {
 			maxC = c
 			best = t
 		}
